@@ -314,16 +314,21 @@ class RoundTrip(Harness):
                 continue
             t2 = tx.copy().reshape(nsym, fft + cp)
             if cp:
-                prove_zero(ctx, 'cp-copy' + tag, t2[:, :cp] - t2[:, fft:])
+                prove_zero(ctx, 'cp-copy' + tag, t2[:, :cp] - t2[:, fft:],
+                           fallback_exact=False)
             if guard:
                 spec = dft.fft(t2[:, cp:], fft, 1)
-                prove_zero(ctx, 'guard-bins' + tag, spec[:, guard])
+                prove_zero(ctx, 'guard-bins' + tag, spec[:, guard],
+                           fallback_exact=False)
             rx = o.demodulate(tx.copy())
             ref = np.hstack([x, _zeros(nsym * used - n)])
             if not (isinstance(rx, np.ndarray) and rx.shape == ref.shape):
                 ctx.prove('roundtrip' + tag, False)
                 continue
-            prove_zero(ctx, 'roundtrip' + tag, rx - ref)
+            # a non-zero normal form is a candidate decided by replay (the
+            # identities are linear in x: no exact non-linear query needed)
+            prove_zero(ctx, 'roundtrip' + tag, rx - ref,
+                       fallback_exact=False)
 
     def _check(self, cfg, n, x):
         bad, info = numeric_case(cfg['fft'], cfg['cp'], cfg['used'], x)
